@@ -174,7 +174,11 @@ pub fn check_view(m: &Model, shape: &[ShapeNode], prog: &ViewProg, steps: &[Step
                     st = VState { prefix: *q, scope: *q };
                     below_virtual = !shape_has(shape, q.key());
                 } else if above {
-                    // the view keeps addressing the same entries; its reported prefix must lie between q and the scope
+                    // the view keeps addressing the same entries and is positioned at q (C11: "prefix() is q";
+                    // C12: "view_at on a view equals find")
+                    if want && o.prefix.key() != q.key() {
+                        bad!(format!("{}/{}/prefix-is-not-q", nav_name(n), rel), "{:?} from view with scope {:?} reports prefix {:?}", n, st.scope, o.prefix);
+                    }
                     if want && !(q.covers(o.prefix) && o.prefix.covers(st.scope)) {
                         bad!(format!("{}/{}/prefix", nav_name(n), rel), "{:?} from view with scope {:?} reports prefix {:?}", n, st.scope, o.prefix);
                     }
